@@ -9,7 +9,10 @@ C06 (progress) also rests on S3 and I0: a value buffered past a waiting receiver
 waiting next to a non-empty buffer / senders waiting next to free room (I0: I2, I4), is a blocked operation that does not
 complete although it can; the completeness clause of drain_into (R9, and its conformance I1d) is the same statement for the
 bulk receive: a drain that leaves available blocked senders behind is a receive that arrived without completing them.  C10 also rests on F7: a stream item that does not come from a poll of the inner future on that
-very call was taken from the channel earlier and kept where close() cannot reach it, so it is delivered after close."""
+very call was taken from the channel earlier and kept where close() cannot reach it, so it is delivered after close.
+C06 and C13 also rest on G1: G6 reads `wait()`'s failed LOCKED -> LOCKED_STARVATION exchange as "the state is final", which holds only
+while nobody but `wait` makes that transition (a timed wait that parks and leaves LOCKED_STARVATION behind turns the fallback
+`wait()` of a timed operation into a false "closed": seeded C11-r16b, C13-r19b)."""
 
 TRANSITION = ['S1', 'S3', 'S4', 'S5', 'S6', 'R1', 'R2', 'R3', 'R5', 'R6', 'R7', 'R9', 'L1', 'L2', 'L5', 'H2', 'H3', 'H4',
               'H6', 'H8', 'O1', 'S0', 'R0']
@@ -20,14 +23,14 @@ PROPS = {
     'C03': ['W1', 'S10', 'R10', 'M6', 'H1', 'M1', 'M2', 'S2', 'R4', 'S1', 'S3', 'S4', 'S5', 'S6', 'R1', 'R2', 'R3', 'R5', 'R6', 'R7', 'R9', 'L1', 'L2', 'L5', 'H2', 'H3', 'H4', 'H6', 'H8', 'O1', 'S0', 'R0', 'P1', 'P2', 'P3', 'P4', 'G3', 'G6', 'G8', 'F2', 'F5', 'S7', 'R8', 'S8', 'I0', 'I1s', 'I1r', 'I1d', 'I1c', 'I1h', 'P5'],
     'C04': ['P1', 'P2', 'P3', 'P4', 'G2', 'G3', 'F5', 'F2', 'R7', 'R6', 'S4', 'G6', 'H4', 'S8', 'R10', 'S7', 'R8', 'G1', 'G4', 'G8', 'F3', 'H6', 'S6', 'P5', 'F6'],
     'C05': ['S0', 'S6', 'F2', 'F5', 'F6', 'P4', 'L5', 'R7', 'R9', 'R3', 'G6', 'G3', 'S5', 'H4', 'G8', 'F3', 'H6', 'L1', 'S2', 'R4', 'F7', 'F1', 'F8', 'P2', 'I1c', 'L7'],
-    'C06': ['L6', 'W1', 'G5', 'G6', 'G2', 'R3', 'R4', 'S2', 'L1', 'L5', 'H6', 'H2', 'S4', 'R6', 'F1', 'F2', 'F3', 'H5', 'M4', 'M5', 'G3', 'L2', 'L3', 'L4', 'G8', 'F7', 'I6', 'I1h', 'H4', 'H3', 'S8', 'R10', 'S7', 'R8', 'L7', 'M7', 'S3', 'I0', 'R9', 'I1d'],
+    'C06': ['L6', 'W1', 'G5', 'G6', 'G2', 'R3', 'R4', 'S2', 'L1', 'L5', 'H6', 'H2', 'S4', 'R6', 'F1', 'F2', 'F3', 'H5', 'M4', 'M5', 'G3', 'L2', 'L3', 'L4', 'G8', 'F7', 'I6', 'I1h', 'H4', 'H3', 'S8', 'R10', 'S7', 'R8', 'L7', 'M7', 'S3', 'I0', 'R9', 'I1d', 'G1'],
     'C07': ['G1', 'G2', 'G4', 'G6', 'G7', 'S8', 'R10', 'S2', 'R4', 'R7', 'F3', 'F5', 'F6', 'H4', 'H5', 'H7', 'T5', 'S7', 'R8', 'G3', 'G8', 'P1', 'P2', 'P3', 'H6', 'H2', 'P5', 'T6'],
     'C08': ['S0', 'S3', 'S4', 'S5', 'R2', 'R3', 'H8', 'L6', 'L3', 'O1', 'Q1', 'R6', 'F2', 'S10', 'R10', 'F6', 'S7', 'R8', 'I0', 'I1s', 'I1r'],
     'C09': ['L4', 'L2', 'L1', 'L5', 'G5', 'G7', 'G2', 'G3', 'G6', 'S0', 'R0', 'S1', 'S2', 'S3', 'S4', 'S5', 'S6', 'R1', 'R2', 'R3', 'R4', 'R5', 'R6', 'R7', 'F1', 'F2', 'F3', 'F6', 'H5', 'O1', 'G8', 'P1', 'P2', 'F7', 'F4', 'F5', 'F8', 'I0', 'I1s', 'I1r', 'I1h', 'L7', 'H4', 'Q1'],
     'C10': ['L5', 'S1', 'R1', 'H6', 'L6', 'L1', 'L2', 'O1', 'S6', 'G3', 'G5', 'G6', 'F2', 'F6', 'G8', 'I6', 'I1s', 'I1r', 'I1c', 'I1h', 'S5', 'R7', 'S8', 'R10', 'F7'],
     'C11': ['L1', 'L2', 'R5', 'S1', 'S6', 'L6', 'H6', 'O1', 'G3', 'G5', 'G6', 'F2', 'F6', 'L3', 'L4', 'G8', 'I6', 'I1s', 'I1r', 'I1h', 'S5', 'R7', 'S8', 'R10', 'F9', 'L7', 'F7'],
     'C12': ['L1', 'L2', 'L3', 'L4', 'L5', 'L6', 'H8', 'O1', 'I1c', 'I1h', 'L7'],
-    'C13': ['S7', 'R8', 'S6', 'S8', 'R10', 'S10', 'G6', 'H4', 'S5', 'R7', 'G3', 'S4', 'R6', 'G8', 'I1s', 'I1r'],
+    'C13': ['S7', 'R8', 'S6', 'S8', 'R10', 'S10', 'G6', 'H4', 'S5', 'R7', 'G3', 'S4', 'R6', 'G8', 'I1s', 'I1r', 'G1'],
     'C14': ['W1', 'S9', 'M3', 'H1', 'S5', 'R7', 'R9', 'S1', 'R1', 'S3', 'I1s', 'I1r', 'I1d'],
     'C15': ['F6', 'H4', 'S10', 'R10', 'F1', 'F2', 'F5', 'T5', 'G6', 'F8', 'G8', 'P2', 'P4', 'F3', 'T6'],
     'C16': ['F1', 'F2', 'F3', 'F4', 'F5', 'F6', 'F7', 'G6', 'R6', 'S4', 'H5', 'G5', 'G8', 'F8', 'P2', 'F9', 'H4'],
